@@ -70,7 +70,7 @@ package nfs
 //@ define TXMODS held, lastst, curop, freshinum, wroteinum, cphase, abits, dirtyinum, cache.Cslot.Obj, map[uint64]*inode.Inode
 //@ define SHRINKMODS muheld, inode.Inode.ShrinkSize, []uint64@inode.Inode.blks, []uint64@alloctxn.AllocTxn.freeBnums, alloctxn.AllocTxn.freeBnums, buf.Buf.dirty, []uint8@buf.Buf.Data
 //@ define FILEMODS inode.Inode.Size, inode.Inode.ShrinkSize, inode.Inode.Atime, inode.Inode.Mtime, inode.Inode.Kind, inode.Inode.Nlink, inode.Inode.Gen, inode.Inode.Inum, inode.Inode.Dcache, []uint64@inode.Inode.blks, alloctxn.AllocTxn.allocBnums, []uint64@alloctxn.AllocTxn.allocBnums, alloctxn.AllocTxn.freeBnums, []uint64@alloctxn.AllocTxn.freeBnums, alloctxn.AllocTxn.allocInums, []uint64@alloctxn.AllocTxn.allocInums, alloctxn.AllocTxn.freeInums, []uint64@alloctxn.AllocTxn.freeInums, buf.Buf.dirty, []uint8@buf.Buf.Data
-//@ define DIRMODS dcache.Dcache.Lastoff, nfstypes.Entry3, cell:*nfstypes.Entry3, nfstypes.Entryplus3, cell:*nfstypes.Entryplus3, map[string]dcache.Dentry, emitted, emitany, emitlast, lastcookie, lastfileid, lastname, lasthino, lasthgen, lastattrid
+//@ define DIRMODS emptychecked, dcache.Dcache.Lastoff, nfstypes.Entry3, cell:*nfstypes.Entry3, nfstypes.Entryplus3, cell:*nfstypes.Entryplus3, map[string]dcache.Dentry, emitted, emitany, emitlast, lastcookie, lastfileid, lastname, lasthino, lasthgen, lastattrid
 //@ define DIRALLOC dir.dirEnt, dcache.Dcache, map[string]dcache.Dentry, nfstypes.Entry3, nfstypes.Entryplus3
 // a transaction that may be ended either way: open, and every held inode is in sync with it
 //@ specfunc endable(op *fstxn.FsTxn) = txOpen(op) && (forall i uint64 :: held[i] ==> !dirtyinum[i])
@@ -93,7 +93,7 @@ package nfs
 //@   requires rpcPre(nfs)
 //@   allocates fstxn.FsTxn, alloctxn.AllocTxn, jrnl.Op, []uint64, map[uint64]*inode.Inode, cache.Cslot, inode.Inode, buf.Buf, marshal.Dec, marshal.Enc, cell:uint64, []uint8, addr.Addr, nfstypes.GETATTR3res
 //@   modifies held, lastst, curop, freshinum, wroteinum, cphase, abits, dirtyinum, cache.Cslot.Obj, map[uint64]*inode.Inode
-//@   ensures [R2-durable] result.Status == 0 ==> lastst == 1 @C01
+//@   ensures [R2-durable] result.Status == 0 ==> lastst == 1 @C01 @C07
 //@   ensures [A1-aborted] result.Status != 0 ==> lastst == 3 || lastst == 4 @C09
 //@   ensures [Fn6-status] result.Status == 0 || result.Status == 70 || result.Status == 10006 @C02
 //@   ensures [H3-fileid] result.Status == 0 ==> uint64(result.Resok.Obj_attributes.Fileid) == fhIno(args.Object) @C08 @C02
@@ -115,7 +115,7 @@ package nfs
 //@   requires rpcPre(nfs)
 //@   allocates $TXALLOC, nfstypes.READ3res
 //@   modifies $TXMODS, $FILEMODS
-//@   ensures [R2-durable] result.Status == 0 ==> lastst == 1 @C01
+//@   ensures [R2-durable] result.Status == 0 ==> lastst == 1 @C01 @C07
 //@   ensures [A1-aborted] result.Status != 0 ==> lastst == 3 || lastst == 4 @C09
 //@   ensures [Fn1-count] result.Status == 0 ==> uint64(result.Resok.Count) == len(result.Resok.Data) @C02
 //@   ensures [L2-quiet] rpcPost(nfs) @C03 @C06 @C14
@@ -125,7 +125,7 @@ package nfs
 //@   requires rpcPre(nfs)
 //@   allocates $TXALLOC, nfstypes.READLINK3res
 //@   modifies $TXMODS, $FILEMODS
-//@   ensures [R2-durable] result.Status == 0 ==> lastst == 1 @C01
+//@   ensures [R2-durable] result.Status == 0 ==> lastst == 1 @C01 @C07
 //@   ensures [A1-aborted] result.Status != 0 ==> lastst == 3 || lastst == 4 @C09
 //@   ensures [L2-quiet] rpcPost(nfs) @C03 @C06 @C14
 
@@ -161,7 +161,7 @@ package nfs
 //@   requires rpcPre(nfs)
 //@   allocates $TXALLOC, nfstypes.SETATTR3res, struct:struct{}
 //@   modifies $TXMODS, $FILEMODS, $SHRINKMODS, shrinker.ShrinkerSt.nthread
-//@   ensures [R2-durable] result.Status == 0 ==> lastst == 1 @C01
+//@   ensures [R2-durable] result.Status == 0 ==> lastst == 1 @C01 @C07
 //@   ensures [A1-aborted] result.Status != 0 ==> lastst == 3 || lastst == 4 @C09
 //@   ensures [Q3-fbig] args.New_attributes.Size.Set_it && uint64(args.New_attributes.Size.Size) > 1073774592 ==> result.Status != 0 @C19
 //@   ensures [Fn3-size] result.Status == 0 && args.New_attributes.Size.Set_it ==> uint64(result.Resok.Obj_wcc.After.Attributes.Size) == uint64(args.New_attributes.Size.Size) @C02
@@ -263,7 +263,7 @@ package nfs
 //@   requires rpcPre(nfs)
 //@   allocates $TXALLOC, $DIRALLOC, nfstypes.LOOKUP3res
 //@   modifies $TXMODS, $FILEMODS, $DIRMODS, sortperm
-//@   ensures [R2-durable] result.Status == 0 ==> lastst == 1 @C01
+//@   ensures [R2-durable] result.Status == 0 ==> lastst == 1 @C01 @C07
 //@   ensures [A1-aborted] result.Status != 0 ==> lastst == 3 || lastst == 4 @C09
 //@   ensures [H3-handle] result.Status == 0 ==> len(result.Resok.Object.Data) == 16 && le64(result.Resok.Object.Data, 0) == old(dnames)[fhIno(args.What.Dir)][args.What.Name] && uint64(result.Resok.Obj_attributes.Attributes.Fileid) == le64(result.Resok.Object.Data, 0) @C08 @C02
 //@   ensures [L2-quiet] rpcPost(nfs) @C03 @C06 @C14
@@ -308,7 +308,7 @@ package nfs
 //@   requires rpcPre(nfs)
 //@   allocates $TXALLOC, $DIRALLOC, nfstypes.READDIR3res, cell:*nfstypes.Entry3
 //@   modifies $TXMODS, $FILEMODS, $DIRMODS
-//@   ensures [R2-durable] result.Status == 0 ==> lastst == 1 @C01
+//@   ensures [R2-durable] result.Status == 0 ==> lastst == 1 @C01 @C07
 //@   ensures [A1-aborted] result.Status != 0 ==> lastst == 3 || lastst == 4 @C09
 //@   ensures [E1-badcookie] uint64(args.Cookie) & 127 != 0 ==> result.Status != 0 @C13 @C11
 //@   ensures [E6-cookie-accepted] result.Status == 10003 ==> uint64(args.Cookie) & 127 != 0 || (ip != nil && uint64(args.Cookie) > ip.Size) @C13
@@ -320,7 +320,7 @@ package nfs
 //@   requires rpcPre(nfs)
 //@   allocates $TXALLOC, $DIRALLOC, nfstypes.READDIRPLUS3res, cell:*nfstypes.Entryplus3, fh.Fh, struct:struct{}
 //@   modifies $TXMODS, $FILEMODS, $DIRMODS
-//@   ensures [R2-durable] result.Status == 0 ==> lastst == 1 @C01
+//@   ensures [R2-durable] result.Status == 0 ==> lastst == 1 @C01 @C07
 //@   ensures [A1-aborted] result.Status != 0 ==> lastst == 3 || lastst == 4 @C09
 //@   ensures [E1-badcookie] uint64(args.Cookie) & 127 != 0 ==> result.Status != 0 @C13 @C11
 //@   ensures [E6-cookie-accepted] result.Status == 10003 ==> uint64(args.Cookie) & 127 != 0 || (ip != nil && uint64(args.Cookie) > ip.Size) @C13
@@ -332,6 +332,7 @@ package nfs
 //@   props C05 C04 C08 C10 C11 C14
 //@   requires nfsInv(nfs) && txOpen(op) && !muheld[base(nfs.shrinkst.mu)]
 //@   requires locked(ip) && inodeInv(ip) && validInum(ip.Inum)
+//@   requires [I5-emptydir] ip.Kind == 2 ==> emptychecked[ip.Inum] || freshinum[ip.Inum] @C04 @C02
 //@   allocates $TXALLOC, struct:struct{}
 //@   modifies ip.Nlink, ip.Kind, ip.Gen, ip.Size, ip.ShrinkSize, ip.blks[*], dirtyinum, wroteinum, abits, muheld, shrinker.ShrinkerSt.nthread, alloctxn.AllocTxn.allocBnums, []uint64@alloctxn.AllocTxn.allocBnums, alloctxn.AllocTxn.freeBnums, []uint64@alloctxn.AllocTxn.freeBnums, alloctxn.AllocTxn.freeInums, []uint64@alloctxn.AllocTxn.freeInums, buf.Buf.dirty, []uint8@buf.Buf.Data
 //@   ensures [F1-freed] old(ip.Nlink) == 1 ==> ip.Kind == 0 && ip.Gen == old(ip.Gen) + 1 && ip.Size == 0 @C05 @C08
@@ -346,6 +347,7 @@ package nfs
 //@   modifies $TXMODS, $FILEMODS, $DIRMODS, $SHRINKMODS
 //@   ensures [open] txOpen(result0) && allClean() && result0.Fs == nfs.fsstate && !muheld[base(nfs.shrinkst.mu)] @C09
 //@   ensures [H1-dir] result3 == 0 ==> result1 != nil && held[result1.Inum] && inodeInv(result1) && matches(result1, dfh) && result1.Kind != 0 && (result1.Kind == 2 ==> dirShape(result1) && dnames[result1.Inum][name] == 0) @C08 @C04
+//@   ensures [F6-newinum] result3 == 0 ==> freshinum[result2.Inum] @C05 @C04
 //@   ensures [F6-fresh] result3 == 0 ==> result2 != nil && held[result2.Inum] && validInum(result2.Inum) && result2.Inum != result1.Inum && inodeInv(result2) && result2.Kind == kind && result2.Nlink == 1 && !result2.IsShrinking() && result2.Size == 0 && (result2.Dcache != nil ==> result2.Dcache.Lastoff & 127 == 0 && result2.Dcache.cache != nil) @C05 @C08
 //@   ensures [Fn6-status] result3 == 0 || result3 == 70 || result3 == 17 || result3 == 28 || result3 == 10006 @C02
 //@   loop 0 invariant nfsInv(nfs) && txOpen(op) && noLocks() && op.Fs == nfs.fsstate && !muheld[base(nfs.shrinkst.mu)]
@@ -371,7 +373,7 @@ package nfs
 //@   requires rpcPre(nfs)
 //@   allocates $TXALLOC, $DIRALLOC, nfstypes.CREATE3res
 //@   modifies $TXMODS, $FILEMODS, $DIRMODS, $SHRINKMODS, dnames, shrinker.ShrinkerSt.nthread
-//@   ensures [R2-durable] result.Status == 0 ==> lastst == 1 @C01
+//@   ensures [R2-durable] result.Status == 0 ==> lastst == 1 @C01 @C07
 //@   ensures [A1-aborted] result.Status != 0 && result.Status != 10004 ==> lastst == 3 || lastst == 4 @C09
 //@   ensures [Fn6-exclusive] args.How.Mode == 2 ==> result.Status == 10004 && dnames == old(dnames) @C02
 //@   ensures [H3-handle] result.Status == 0 ==> result.Resok.Obj.Handle_follows && len(result.Resok.Obj.Handle.Data) == 16 && uint64(result.Resok.Obj_attributes.Attributes.Fileid) == le64(result.Resok.Obj.Handle.Data, 0) @C08 @C02
@@ -382,7 +384,7 @@ package nfs
 //@   requires rpcPre(nfs)
 //@   allocates $TXALLOC, $DIRALLOC, nfstypes.MKDIR3res
 //@   modifies $TXMODS, $FILEMODS, $DIRMODS, $SHRINKMODS, dnames, shrinker.ShrinkerSt.nthread
-//@   ensures [R2-durable] result.Status == 0 ==> lastst == 1 @C01
+//@   ensures [R2-durable] result.Status == 0 ==> lastst == 1 @C01 @C07
 //@   ensures [A1-aborted] result.Status != 0 ==> lastst == 3 || lastst == 4 @C09
 //@   ensures [H3-handle] result.Status == 0 ==> result.Resok.Obj.Handle_follows && len(result.Resok.Obj.Handle.Data) == 16 && uint64(result.Resok.Obj_attributes.Attributes.Fileid) == le64(result.Resok.Obj.Handle.Data, 0) && result.Resok.Obj_attributes.Attributes.Ftype == 2 @C08 @C02
 //@   ensures [L2-quiet] rpcPost(nfs) @C03 @C06 @C14
@@ -392,7 +394,7 @@ package nfs
 //@   requires rpcPre(nfs)
 //@   allocates $TXALLOC, $DIRALLOC, nfstypes.SYMLINK3res
 //@   modifies $TXMODS, $FILEMODS, $DIRMODS, $SHRINKMODS, dnames, shrinker.ShrinkerSt.nthread
-//@   ensures [R2-durable] result.Status == 0 ==> lastst == 1 @C01
+//@   ensures [R2-durable] result.Status == 0 ==> lastst == 1 @C01 @C07
 //@   ensures [A1-aborted] result.Status != 0 ==> lastst == 3 || lastst == 4 @C09
 //@   ensures [H3-handle] result.Status == 0 ==> result.Resok.Obj.Handle_follows && len(result.Resok.Obj.Handle.Data) == 16 && uint64(result.Resok.Obj_attributes.Attributes.Fileid) == le64(result.Resok.Obj.Handle.Data, 0) && result.Resok.Obj_attributes.Attributes.Ftype == 5 @C08 @C02
 //@   ensures [L2-quiet] rpcPost(nfs) @C03 @C06 @C14
@@ -415,7 +417,7 @@ package nfs
 //@   requires rpcPre(nfs)
 //@   allocates $TXALLOC, $DIRALLOC, nfstypes.REMOVE3res, struct:struct{}
 //@   modifies $TXMODS, $FILEMODS, $DIRMODS, $SHRINKMODS, dnames, sortperm, shrinker.ShrinkerSt.nthread
-//@   ensures [R2-durable] result.Status == 0 ==> lastst == 1 @C01
+//@   ensures [R2-durable] result.Status == 0 ==> lastst == 1 @C01 @C07
 //@   ensures [A1-aborted] result.Status != 0 ==> lastst == 3 || lastst == 4 @C09
 //@   ensures [L2-quiet] rpcPost(nfs) @C03 @C06 @C14
 
@@ -424,7 +426,7 @@ package nfs
 //@   requires rpcPre(nfs)
 //@   allocates $TXALLOC, $DIRALLOC, nfstypes.RMDIR3res, struct:struct{}
 //@   modifies $TXMODS, $FILEMODS, $DIRMODS, $SHRINKMODS, dnames, sortperm, shrinker.ShrinkerSt.nthread
-//@   ensures [R2-durable] result.Status == 0 ==> lastst == 1 @C01
+//@   ensures [R2-durable] result.Status == 0 ==> lastst == 1 @C01 @C07
 //@   ensures [A1-aborted] result.Status != 0 ==> lastst == 3 || lastst == 4 @C09
 //@   ensures [L2-quiet] rpcPost(nfs) @C03 @C06 @C14
 
@@ -455,7 +457,7 @@ package nfs
 //@   requires rpcPre(nfs)
 //@   allocates $TXALLOC, $DIRALLOC, nfstypes.RENAME3res, struct:struct{}
 //@   modifies $TXMODS, $FILEMODS, $DIRMODS, $SHRINKMODS, dnames, sortperm, shrinker.ShrinkerSt.nthread
-//@   ensures [R2-durable] result.Status == 0 ==> lastst == 1 @C01
+//@   ensures [R2-durable] result.Status == 0 ==> lastst == 1 @C01 @C07
 //@   ensures [A1-aborted] result.Status != 0 ==> lastst == 3 || lastst == 4 @C09
 //@   ensures [Fn5-renamed] result.Status == 0 ==> dnames[fhIno(args.To.Dir)][args.To.Name] != 0 @C02
 //@   ensures [Fn5-source-gone] result.Status == 0 ==> dnames[fhIno(args.From.Dir)][args.From.Name] == 0 || (fhIno(args.From.Dir) == fhIno(args.To.Dir) && dnames[fhIno(args.From.Dir)][args.From.Name] == dnames[fhIno(args.To.Dir)][args.To.Name]) @C02 @C04
